@@ -59,3 +59,6 @@ func HookWide(dst *Dst, src *Src, n interface{}, v interface{}) {}
 func HookNarrow(dst *Dst, src *Src, n int, v int)               {}
 func HookVarTail(dst *Dst, src *Src, n int, vs ...interface{})  {}
 func HookN(dst *Dst, src *Src, n int)                           {}
+
+func HookOptPtr(dst *Dst, src *Src, o *ext.Opts) {}
+func HookOptVal(dst *Dst, src *Src, o ext.Opts)  {}
